@@ -282,6 +282,7 @@ package psatoken
 //@   property C01 C05 C08 C13 C17 C18
 //@   requires wfP1(c)
 //@   ensures[iff] (ret == nil) == validP1(c)
+//@   ensures[class] ret != nil ==> errOnly(ret, ErrMissingMandatory) || errOnly(ret, ErrWrongSyntax) || errOnly(ret, ErrWrongProfile)
 //@   modifies nothing
 
 
@@ -452,6 +453,7 @@ package psatoken
 //@   property C01 C05 C08 C13 C17 C18
 //@   requires wfP2(c)
 //@   ensures[iff] (ret == nil) == validP2(c)
+//@   ensures[class] ret != nil ==> errOnly(ret, ErrMissingMandatory) || errOnly(ret, ErrWrongSyntax) || errOnly(ret, ErrWrongProfile)
 //@   modifies nothing
 
 
@@ -578,6 +580,7 @@ package psatoken
 //@   requires (typeIs(c, *P1Claims) && c.(*P1Claims) != nil && wfP1(*c.(*P1Claims))) || (typeIs(c, *P2Claims) && c.(*P2Claims) != nil && wfP2(*c.(*P2Claims)))
 //@   ensures[iff-p1] typeIs(c, *P1Claims) ==> ((ret == nil) == validP1(*c.(*P1Claims)))
 //@   ensures[iff-p2] typeIs(c, *P2Claims) ==> ((ret == nil) == validP2(*c.(*P2Claims)))
+//@   ensures[class] ret != nil ==> errOnly(ret, ErrMissingMandatory) || errOnly(ret, ErrWrongSyntax) || errOnly(ret, ErrWrongProfile)
 //@   modifies nothing
 
 // ---------------------------------------------------------------- iclaims.go: interface-level contract and gates
@@ -1115,12 +1118,12 @@ package psatoken
 // 265, 2394..2400; components 1, 2, 4, 5, 6); optional claims carry omitempty in both encodings;
 // JSON member names as used by the repository's JSON test vectors.
 
-//@ ground[C04,C09,C10,C12] layout-p1-fields : layoutKeysDistinct(P1Claims{}, 12) && layoutIs(P1Claims{}, "Profile", "*string", "-75000,keyasint,omitempty", "psa-profile,omitempty") && layoutIs(P1Claims{}, "ClientID", "*int32", "-75001,keyasint", "psa-client-id") && layoutIs(P1Claims{}, "SecurityLifeCycle", "*uint16", "-75002,keyasint", "psa-security-lifecycle") && layoutIs(P1Claims{}, "ImplID", "*[]uint8", "-75003,keyasint", "psa-implementation-id") && layoutIs(P1Claims{}, "BootSeed", "*[]uint8", "-75004,keyasint", "psa-boot-seed") && layoutIs(P1Claims{}, "CertificationReference", "*string", "-75005,keyasint,omitempty", "psa-hwver,omitempty")
-//@ ground[C04,C09,C10,C12] layout-p1-fields-2 : layoutIs(P1Claims{}, "SwComponents", "psatoken.ISwComponents", "-75006,keyasint,omitempty", "psa-software-components,omitempty") && layoutIs(P1Claims{}, "NoSwMeasurements", "*uint", "-75007,keyasint,omitempty", "psa-no-software-measurements,omitempty") && layoutIs(P1Claims{}, "Nonce", "*[]uint8", "-75008,keyasint", "psa-nonce") && layoutIs(P1Claims{}, "InstID", "*[]uint8", "-75009,keyasint", "psa-instance-id") && layoutIs(P1Claims{}, "VSI", "*string", "-75010,keyasint,omitempty", "psa-verification-service-indicator,omitempty") && layoutIs(P1Claims{}, "CanonicalProfile", "string", "-", "-")
-//@ ground[C04,C09,C10,C12] layout-p2-fields : layoutKeysDistinct(P2Claims{}, 11) && layoutIs(P2Claims{}, "Profile", "*eat.Profile", "265,keyasint", "eat-profile") && layoutIs(P2Claims{}, "ClientID", "*int32", "2394,keyasint", "psa-client-id") && layoutIs(P2Claims{}, "SecurityLifeCycle", "*uint16", "2395,keyasint", "psa-security-lifecycle") && layoutIs(P2Claims{}, "ImplID", "*[]uint8", "2396,keyasint", "psa-implementation-id") && layoutIs(P2Claims{}, "BootSeed", "*[]uint8", "2397,keyasint,omitempty", "psa-boot-seed,omitempty") && layoutIs(P2Claims{}, "CertificationReference", "*string", "2398,keyasint,omitempty", "psa-certification-reference,omitempty")
-//@ ground[C04,C09,C10,C12] layout-p2-fields-2 : layoutIs(P2Claims{}, "SwComponents", "psatoken.ISwComponents", "2399,keyasint", "psa-software-components") && layoutIs(P2Claims{}, "Nonce", "*eat.Nonce", "10,keyasint", "psa-nonce") && layoutIs(P2Claims{}, "InstID", "*eat.UEID", "256,keyasint", "psa-instance-id") && layoutIs(P2Claims{}, "VSI", "*string", "2400,keyasint,omitempty", "psa-verification-service-indicator,omitempty") && layoutIs(P2Claims{}, "CanonicalProfile", "string", "-", "-")
-//@ ground[C04,C09,C10,C12] layout-component : layoutKeysDistinct(SwComponent{}, 5) && layoutIs(SwComponent{}, "MeasurementType", "*string", "1,keyasint,omitempty", "measurement-type,omitempty") && layoutIs(SwComponent{}, "MeasurementValue", "*[]uint8", "2,keyasint", "measurement-value") && layoutIs(SwComponent{}, "Version", "*string", "4,keyasint,omitempty", "version,omitempty") && layoutIs(SwComponent{}, "SignerID", "*[]uint8", "5,keyasint", "signer-id") && layoutIs(SwComponent{}, "MeasurementDesc", "*string", "6,keyasint,omitempty", "measurement-description,omitempty")
-//@ ground[C04,C09,C10,C12] layout-alias-types : reflect.TypeOf(p1Claims{}).ConvertibleTo(reflect.TypeOf(P1Claims{})) && reflect.TypeOf(p2Claims{}).ConvertibleTo(reflect.TypeOf(P2Claims{})) && reflect.TypeOf(p1Claims{}).NumMethod() == 0 && reflect.TypeOf(&p1Claims{}).NumMethod() == 0 && reflect.TypeOf(&p2Claims{}).NumMethod() == 0
+//@ ground[C04,C09,C10,C12,C07] layout-p1-fields : layoutKeysDistinct(P1Claims{}, 12) && layoutIs(P1Claims{}, "Profile", "*string", "-75000,keyasint,omitempty", "psa-profile,omitempty") && layoutIs(P1Claims{}, "ClientID", "*int32", "-75001,keyasint", "psa-client-id") && layoutIs(P1Claims{}, "SecurityLifeCycle", "*uint16", "-75002,keyasint", "psa-security-lifecycle") && layoutIs(P1Claims{}, "ImplID", "*[]uint8", "-75003,keyasint", "psa-implementation-id") && layoutIs(P1Claims{}, "BootSeed", "*[]uint8", "-75004,keyasint", "psa-boot-seed") && layoutIs(P1Claims{}, "CertificationReference", "*string", "-75005,keyasint,omitempty", "psa-hwver,omitempty")
+//@ ground[C04,C09,C10,C12,C07] layout-p1-fields-2 : layoutIs(P1Claims{}, "SwComponents", "psatoken.ISwComponents", "-75006,keyasint,omitempty", "psa-software-components,omitempty") && layoutIs(P1Claims{}, "NoSwMeasurements", "*uint", "-75007,keyasint,omitempty", "psa-no-software-measurements,omitempty") && layoutIs(P1Claims{}, "Nonce", "*[]uint8", "-75008,keyasint", "psa-nonce") && layoutIs(P1Claims{}, "InstID", "*[]uint8", "-75009,keyasint", "psa-instance-id") && layoutIs(P1Claims{}, "VSI", "*string", "-75010,keyasint,omitempty", "psa-verification-service-indicator,omitempty") && layoutIs(P1Claims{}, "CanonicalProfile", "string", "-", "-")
+//@ ground[C04,C09,C10,C12,C07] layout-p2-fields : layoutKeysDistinct(P2Claims{}, 11) && layoutIs(P2Claims{}, "Profile", "*eat.Profile", "265,keyasint", "eat-profile") && layoutIs(P2Claims{}, "ClientID", "*int32", "2394,keyasint", "psa-client-id") && layoutIs(P2Claims{}, "SecurityLifeCycle", "*uint16", "2395,keyasint", "psa-security-lifecycle") && layoutIs(P2Claims{}, "ImplID", "*[]uint8", "2396,keyasint", "psa-implementation-id") && layoutIs(P2Claims{}, "BootSeed", "*[]uint8", "2397,keyasint,omitempty", "psa-boot-seed,omitempty") && layoutIs(P2Claims{}, "CertificationReference", "*string", "2398,keyasint,omitempty", "psa-certification-reference,omitempty")
+//@ ground[C04,C09,C10,C12,C07] layout-p2-fields-2 : layoutIs(P2Claims{}, "SwComponents", "psatoken.ISwComponents", "2399,keyasint", "psa-software-components") && layoutIs(P2Claims{}, "Nonce", "*eat.Nonce", "10,keyasint", "psa-nonce") && layoutIs(P2Claims{}, "InstID", "*eat.UEID", "256,keyasint", "psa-instance-id") && layoutIs(P2Claims{}, "VSI", "*string", "2400,keyasint,omitempty", "psa-verification-service-indicator,omitempty") && layoutIs(P2Claims{}, "CanonicalProfile", "string", "-", "-")
+//@ ground[C04,C09,C10,C12,C07] layout-component : layoutKeysDistinct(SwComponent{}, 5) && layoutIs(SwComponent{}, "MeasurementType", "*string", "1,keyasint,omitempty", "measurement-type,omitempty") && layoutIs(SwComponent{}, "MeasurementValue", "*[]uint8", "2,keyasint", "measurement-value") && layoutIs(SwComponent{}, "Version", "*string", "4,keyasint,omitempty", "version,omitempty") && layoutIs(SwComponent{}, "SignerID", "*[]uint8", "5,keyasint", "signer-id") && layoutIs(SwComponent{}, "MeasurementDesc", "*string", "6,keyasint,omitempty", "measurement-description,omitempty")
+//@ ground[C04,C09,C10,C12,C07] layout-alias-types : reflect.TypeOf(p1Claims{}).ConvertibleTo(reflect.TypeOf(P1Claims{})) && reflect.TypeOf(p2Claims{}).ConvertibleTo(reflect.TypeOf(P2Claims{})) && reflect.TypeOf(p1Claims{}).NumMethod() == 0 && reflect.TypeOf(&p1Claims{}).NumMethod() == 0 && reflect.TypeOf(&p2Claims{}).NumMethod() == 0
 
 // ---------------------------------------------------------------- bounded audits of the assumed codec contracts (real libraries, end to end)
 
@@ -1135,7 +1138,7 @@ package psatoken
 //@ bounded[C18] read-only : 96 claims-sets (32 valid, 32 damaged, 32 of two extension profiles): deep structural snapshot, getter results, Validate verdict, CBOR and JSON encodings before vs after a series of read-side calls, each repeated; claims decoded from CBOR / JSON and Evidence decoded from a signed token compared before vs after the caller's input buffer is overwritten (getters, verification with the right and with another key, Evidence JSON); verification and reading on the signing Evidence :: boundedReadOnly()
 //@ bounded[C01,C11,C14] value-rules : byte-string lengths 0..80 through every validator, setter and getter of both profiles and of the component; 600 strings in the single-edit neighbourhood (insertion / substitution / deletion over 10 characters incl. newline and a non-ASCII letter) of three valid certification references through both regular expressions, setters and getters; all 2^16 lifecycle values through the state mapping, names, validator and (sampled) setters -- against oracles written from the statement :: boundedValueRules()
 //@ bounded[C13] error-classes : every getter of an empty and of a malformed claims-set of both profiles, four setter failures, component fields, a profile mismatch: exactly one of the five classes; the filter on 9 + 7 error values built by wrapping :: boundedErrorClasses()
-//@ bounded[C16] registry : re-registration under 4 taken names, a claims type without profile field, one late registration: lookups of 5 names and decoding of 2 tokens before vs after; independence of two NewClaims results; 300 repetitions of JSON dispatch of an ambiguous and of a profile-less token :: boundedRegistry()
+//@ bounded[C16] registry : re-registration under 4 taken names, two claims types without an identifiable profile field (none at all; a member named Profile under an ordinary key), one late registration: lookups of 5 names and decoding of 2 tokens before vs after; independence of two NewClaims results; 300 repetitions of JSON dispatch of an ambiguous, of a profile-less and of two mixed tokens (one matching member, one member with an unregistered value) :: boundedRegistry()
 //@ bounded[C05] decode-no-panic : 7 valid claims-sets as CBOR, JSON and signed COSE token: every truncation, every value of each of the first 10 bytes, 11 type-swapping substitutions (null, undefined, empty array / map / string, break, tag, ...) at every position, every JSON member replaced by 11 other values or duplicated; each result decoded through every entry point and, where something is returned, validated, read through every getter, re-encoded and verified; thorough tier: 16 sets, every value of each of the first 24 bytes :: boundedDecodeNoPanic()
 //@ bounded[C08] gates : 96 claims-sets (valid, damaged, extension profiles) through the seven validating entry points, compared with Validate() and the non-validating sibling (bytes, attachment, returned values) :: boundedGates()
 // Audits whose oracle is the literal statement where the codecs / the crypto are more lenient than it; each
